@@ -61,7 +61,18 @@ pub struct ClauseConstraint { pub lits: Vec<Literal> }
 pub mod constraints { use super::*;
     verus! {
     pub fn clause(literals: Vec<Literal>) -> (r: ClauseConstraint) ensures r.lits@ == literals@ { ClauseConstraint { lits: literals } }
+    #[verifier::external_body]
+    pub fn conjunction<const N: usize>(literals: [Literal; N]) -> (r: ConjunctionConstraint) ensures r.lits@ == literals@ { unimplemented!() }
     }
+}
+pub struct ConjunctionConstraint { pub lits: Vec<Literal> }
+impl ConjunctionConstraint {
+    #[verifier::external_body]
+    pub fn reify(self, solver: &mut Solver, reification_literal: Literal, tag: Option<std::num::NonZero<u32>>) -> (r: Result<(), ConstraintOperationError>)
+        ensures forall|a: Asg| #![trigger (final(solver).model@)(a)] (final(solver).model@)(a) <==> (old(solver).model@)(a)
+                    && (lit_true(reification_literal, a) <==> forall|i: int| #![trigger self.lits@[i]] 0 <= i < self.lits@.len() ==> lit_true(self.lits@[i], a)),
+                r is Err ==> final(solver).unsat(),
+    { unimplemented!() }
 }
 impl ClauseConstraint {
     #[verifier::external_body]
@@ -78,17 +89,18 @@ impl<'a> CompilationContext<'a> {
     pub uninterp spec fn bool_var(e: &flatzinc::Expr) -> Literal;
     #[verifier::external_body]
     pub fn resolve_integer_variable(&mut self, e: &flatzinc::Expr) -> (r: Result<DomainId, FlatZincError>)
-        ensures *final(self).solver == *old(self).solver, *final(final(self).solver) == *final(old(self).solver), r matches Ok(v) ==> v == Self::int_var(e)
+        ensures *final(self).solver == *old(self).solver, *final(final(self).solver) == *final(old(self).solver), r matches Ok(v) ==> v == Self::int_var(e), r matches Err(x) ==> x is Other
     { unimplemented!() }
     #[verifier::external_body]
     pub fn resolve_set_constant(&mut self, e: &flatzinc::Expr) -> (r: Result<Set, FlatZincError>)
-        ensures *final(self).solver == *old(self).solver, *final(final(self).solver) == *final(old(self).solver), r matches Ok(v) ==> v == Self::set_const(e)
+        ensures *final(self).solver == *old(self).solver, *final(final(self).solver) == *final(old(self).solver), r matches Ok(v) ==> v == Self::set_const(e), r matches Err(x) ==> x is Other
     { unimplemented!() }
     #[verifier::external_body]
     pub fn resolve_bool_variable(&mut self, e: &flatzinc::Expr) -> (r: Result<Literal, FlatZincError>)
-        ensures *final(self).solver == *old(self).solver, *final(final(self).solver) == *final(old(self).solver), r matches Ok(v) ==> v == Self::bool_var(e)
+        ensures *final(self).solver == *old(self).solver, *final(final(self).solver) == *final(old(self).solver), r matches Ok(v) ==> v == Self::bool_var(e), r matches Err(x) ==> x is Other
     { unimplemented!() }
 }
 //@@EXTRACT sir@@
+//@@EXTRACT band@@
 } // verus!
 fn main() {}
